@@ -668,3 +668,67 @@ Proof.
   cbn [find_first]. rewrite Hm. rewrite (scan_expr_wrapped e rest He).
   subst e. reflexivity.
 Qed.
+
+(** ** autoinc on a printed AUTOINCREMENT column *)
+Definition t_integer : bytes := [105;110;116;101;103;101;114].          (* FormatType prints lower case *)
+Definition PK_AUTOINC : bytes := K_PRIMARY ++ [ch_sp] ++ K_KEY ++ [ch_sp] ++ K_AUTOINCREMENT.
+
+Lemma pk_autoinc_at_hit rest : pk_autoinc_at (PK_AUTOINC ++ rest) = true.
+Proof.
+  unfold pk_autoinc_at, PK_AUTOINC. repeat rewrite <- app_assoc. rewrite lit_ci_self.
+  change ([ch_sp] ++ K_KEY ++ [ch_sp] ++ K_AUTOINCREMENT ++ rest) with (ch_sp :: K_KEY ++ ch_sp :: K_AUTOINCREMENT ++ rest).
+  cbn [plus_space]. change (is_space ch_sp) with true. cbn iota.
+  change (skip_while is_space (K_KEY ++ ch_sp :: K_AUTOINCREMENT ++ rest)) with (K_KEY ++ ch_sp :: K_AUTOINCREMENT ++ rest).
+  rewrite lit_ci_self. change (is_space ch_sp) with true. cbn [andb].
+  destruct (K_AUTOINCREMENT ++ rest) eqn:E; [discriminate|]. cbn [has_ci]. rewrite <- E, lit_ci_self. reflexivity.
+Qed.
+
+Lemma has_pk_autoinc_prefix x s : forallb not_comma x = true -> pk_autoinc_at s = true -> has_pk_autoinc (x ++ s) = true.
+Proof.
+  induction x as [|c x IH]; intros H Hs.
+  - destruct s; cbn [app has_pk_autoinc]; rewrite Hs; reflexivity.
+  - simpl in H. apply andb_true_iff in H. destruct H as [Hc H].
+    change ((c :: x) ++ s) with (c :: x ++ s). cbn [has_pk_autoinc].
+    unfold not_comma in Hc. apply negb_true_iff in Hc. rewrite Hc, (IH H Hs). apply orb_true_r.
+Qed.
+
+Theorem find_autoinc_printed name pre c sp1 w1 mid rest :
+  name_ok name -> open_ch c = true -> forallb is_space sp1 = true -> forallb is_space w1 = true ->
+  forallb not_comma mid = true ->
+  no_start_before _ match_autoinc_at
+    (pre ++ c :: sp1 ++ bt_ident name ++ ch_sp :: w1 ++ t_integer ++ ch_sp :: mid ++ PK_AUTOINC ++ rest) (length pre) = true ->
+  find_autoinc (pre ++ c :: sp1 ++ bt_ident name ++ ch_sp :: w1 ++ t_integer ++ ch_sp :: mid ++ PK_AUTOINC ++ rest) = Some name.
+Proof.
+  intros Hn Hc Hs1 Hw1 Hmid Hpre.
+  rewrite find_autoinc_first, (find_first_skip _ _ _ _ Hpre).
+  assert (match_autoinc_at (c :: sp1 ++ bt_ident name ++ ch_sp :: w1 ++ t_integer ++ ch_sp :: mid ++ PK_AUTOINC ++ rest) = Some name) as Hm.
+  { unfold match_autoinc_at. rewrite Hc. unfold bt_ident.
+    change (sp1 ++ (ch_bt :: name ++ [ch_bt]) ++ ch_sp :: w1 ++ t_integer ++ ch_sp :: mid ++ PK_AUTOINC ++ rest)
+      with (sp1 ++ ch_bt :: (name ++ [ch_bt]) ++ ch_sp :: w1 ++ t_integer ++ ch_sp :: mid ++ PK_AUTOINC ++ rest).
+    rewrite skip_spaces_tail by (exact Hs1 || reflexivity).
+    cbn [opt_quote]. change (is_quote ch_bt) with true. cbn iota.
+    rewrite <- app_assoc. cbn [app]. rewrite (word1_name name _ Hn).
+    cbn [opt_quote]. change (is_quote ch_bt) with true. cbn iota.
+    cbn [plus_space]. change (is_space ch_sp) with true. cbn iota.
+    rewrite skip_spaces_tail by (exact Hw1 || reflexivity).
+    change (lit_ci K_INTEGER (t_integer ++ ch_sp :: mid ++ PK_AUTOINC ++ rest)) with (Some (ch_sp :: mid ++ PK_AUTOINC ++ rest)).
+    cbn iota. change (is_space ch_sp) with true. cbn [andb].
+    rewrite (has_pk_autoinc_prefix mid _ Hmid (pk_autoinc_at_hit rest)). reflexivity. }
+  destruct (c :: sp1 ++ bt_ident name ++ ch_sp :: w1 ++ t_integer ++ ch_sp :: mid ++ PK_AUTOINC ++ rest) eqn:E; [discriminate|].
+  cbn [find_first]. rewrite Hm. reflexivity.
+Qed.
+
+(** autoinc(t) itself: the recognised column is the single primary-key column *)
+Corollary autoinc_printed name pre c sp1 w1 mid rest cols :
+  name_ok name -> open_ch c = true -> forallb is_space sp1 = true -> forallb is_space w1 = true ->
+  forallb not_comma mid = true -> In name cols ->
+  no_start_before _ match_autoinc_at
+    (pre ++ c :: sp1 ++ bt_ident name ++ ch_sp :: w1 ++ t_integer ++ ch_sp :: mid ++ PK_AUTOINC ++ rest) (length pre) = true ->
+  autoinc (pre ++ c :: sp1 ++ bt_ident name ++ ch_sp :: w1 ++ t_integer ++ ch_sp :: mid ++ PK_AUTOINC ++ rest) cols [name] = AutoOk name.
+Proof.
+  intros Hn Hc Hs1 Hw1 Hmid Hin Hpre. unfold autoinc.
+  rewrite (find_autoinc_printed name pre c sp1 w1 mid rest Hn Hc Hs1 Hw1 Hmid Hpre).
+  assert (existsb (bytes_eqb name) cols = true) as ->.
+  { apply existsb_exists. exists name. split; [exact Hin|apply bytes_eqb_refl]. }
+  rewrite bytes_eqb_refl. reflexivity.
+Qed.
